@@ -11,7 +11,7 @@
    px zero IM i j is IM[i][j].  Origins are integers (Z) or rationals (Q). *)
 From Coq Require Import List Arith Bool ZArith QArith Qround Qabs Reals Lia.
 From PA Require Import base.Arr base.Px model.Center proofs.CenterAxis proofs.CenterProofs
-  proofs.CenterCor proofs.CenterPrep proofs.CenterImage proofs.CenterTop proofs.OriginSums proofs.CenterLin.
+  proofs.CenterCor proofs.CenterPrep proofs.CenterImage proofs.CenterTop proofs.OriginSums proofs.CenterLin gen.CenterGen proofs.CenterGenEq.
 Import ListNotations.
 Local Open Scope nat_scope.
 
@@ -249,6 +249,16 @@ Example C12_center_image_square_examples :
   ci_trim false true (repeat [1; 2; 3; 4; 5] 4) = repeat [1; 2; 3; 4] 4 /\
   ci_trim false true (repeat [1; 2; 3; 4; 5; 6] 3) = repeat [2; 3; 4] 3.
 Proof. exact ci_trim_fixed_examples. Qed.
+
+(* The trimming model ci_trim the center_image theorems are about is the
+   function the current source defines: gen/CenterGen.v is regenerated from the
+   statements of center_image (abel/tools/center.py) by
+   tools/translate/center_src.py on every run (fail closed). *)
+Theorem C12_trim_model_is_source :
+  forall (A : Type) (odd_size square : bool) (IM : list (list A)),
+  ci_trim_gen A odd_size square IM = ci_trim odd_size square IM.
+Proof. exact ci_trim_gen_eq. Qed.
+Print Assumptions C12_trim_model_is_source.
 
 Theorem C12_trim_shape :
   forall (A : Type) (odd_size square : bool) (n m : nat) (IM : list (list A)),
